@@ -68,12 +68,6 @@ func runR09_6(c *Ctx, r *R) {
 		}
 	}
 	if f := r.Need("mpx", "conn.createChannel"); f != nil {
-		var set ssa.Instruction
-		for _, call := range callsIn(f, false) {
-			if calleeLabel(call) == "channels.Set" {
-				set = call.(ssa.Instruction)
-			}
-		}
 		n := 0
 		for _, ret := range returnsOf(f) {
 			if len(ret.Results) != 3 {
@@ -84,16 +78,11 @@ func runR09_6(c *Ctx, r *R) {
 			}
 			n++
 			key := fmt.Sprintf("%s/recheck-after-insert#%d", fnKey(f), n)
-			good := false
-			for _, cd := range pathConds(ret.Block()) {
-				if call, ok := cd.V.(*ssa.Call); ok && !cd.Truth && calleeLabel(call) == "channelsClosed.Load" && set != nil && dominatesInstr(set, call) {
-					good = true
-				}
-			}
+			inserted, rechecked := insertedAndRechecked(ret.Block(), 0)
 			switch {
-			case set == nil:
+			case !inserted:
 				r.Bad(key, ret.Pos(), "the channel is never inserted into the map")
-			case good:
+			case rechecked:
 				r.OK(key, ret.Pos(), "a channel is returned only after channelsClosed was re-checked behind the insert")
 			default:
 				r.Bad(key, ret.Pos(), "createChannel reports success without re-checking channelsClosed after the insert: a sweep that already passed leaves this channel open forever")
@@ -273,13 +262,11 @@ func runR11_5(c *Ctx, r *R) {
 		return
 	}
 	isMsg := func(v ssa.Value) bool { return typeIs(v.Type(), pkgPath("proto/pmpx"), "Message") }
-	// codeKnown: on every path to block b, Code() of message value m was compared equal to want
-	codeKnown := func(b *ssa.BasicBlock, m ssa.Value, want int64) bool {
-		isCodeOf := func(v ssa.Value) bool {
-			call, ok := v.(*ssa.Call)
-			if !ok {
-				return false
-			}
+	// isCodeOf: v is the code of message m - the result of m.Code(), or a parameter of an unexported function that
+	// receives, at every call site, the code of the message it receives as m
+	var isCodeOf func(fn *ssa.Function, v, m ssa.Value, depth int) bool
+	isCodeOf = func(fn *ssa.Function, v, m ssa.Value, depth int) bool {
+		if call, ok := v.(*ssa.Call); ok {
 			o := calleeObj(call)
 			if o == nil || o.Name() != "Code" {
 				return false
@@ -291,6 +278,41 @@ func runR11_5(c *Ctx, r *R) {
 			}
 			return recv == m
 		}
+		vp, ok1 := v.(*ssa.Parameter)
+		mp, ok2 := m.(*ssa.Parameter)
+		if !ok1 || !ok2 || depth >= 3 || ast.IsExported(fn.Name()) || !typeIs(vp.Type(), pkgPath("proto/pmpx"), "Code") {
+			return false
+		}
+		vi, mi := paramIndex(fn, vp), paramIndex(fn, mp)
+		n := 0
+		good := true
+		for _, g := range c.SrcFuncs("mpx") {
+			withAnon(g, func(h *ssa.Function) {
+				allInstrs(h, func(i ssa.Instruction) {
+					for _, op := range i.Operands(nil) {
+						if *op == ssa.Value(fn) {
+							if ci, isCall := i.(*ssa.Call); !isCall || ci.Call.Value != ssa.Value(fn) {
+								good = false // used as a value / go / defer: callers unknown
+							}
+						}
+					}
+				})
+				for _, call := range callsIn(h, false) {
+					if call.Common().StaticCallee() != fn || vi >= len(call.Common().Args) || mi >= len(call.Common().Args) {
+						continue
+					}
+					n++
+					if !isCodeOf(h, call.Common().Args[vi], call.Common().Args[mi], depth+1) {
+						good = false
+					}
+				}
+			})
+		}
+		return good && n > 0
+	}
+	// codeKnown: on every path to block b, the code of message value m was compared equal to want
+	codeKnown := func(b *ssa.BasicBlock, m ssa.Value, want int64) bool {
+		fn := b.Parent()
 		for _, alt := range backPaths(b, nil, 64) {
 			known := false
 			for _, cd := range alt {
@@ -299,7 +321,7 @@ func runR11_5(c *Ctx, r *R) {
 					if _, isK := x.(*ssa.Const); isK {
 						x, y = y, x
 					}
-					if k, isK := constInt(y); isK && rel.Op == token.EQL && k == want && isCodeOf(x) {
+					if k, isK := constInt(y); isK && rel.Op == token.EQL && k == want && isCodeOf(fn, x, m, 0) {
 						known = true
 					}
 				}
@@ -542,4 +564,69 @@ func runR03_6(c *Ctx, r *R) {
 	if n == 0 {
 		r.Unk("mpx/queue-writes", 0, "no bytequeue Write found in package mpx (anchor lost)")
 	}
+}
+
+// insertedAndRechecked: block b is reached only after channels.Set (inserted) and, behind it, a
+// channelsClosed.Load() that returned false (rechecked) - in this function, or inside a helper of the package whose
+// true result (the condition on the way to b) is returned only under these two.
+func insertedAndRechecked(b *ssa.BasicBlock, depth int) (inserted, rechecked bool) {
+	fn := b.Parent()
+	var set ssa.Instruction
+	for _, call := range callsIn(fn, false) {
+		if calleeLabel(call) == "channels.Set" {
+			set = call.(ssa.Instruction)
+		}
+	}
+	if set != nil && (set.Block() == b || set.Block().Dominates(b)) {
+		inserted = true
+	}
+	for _, cd := range pathConds(b) {
+		v, truth := cd.V, cd.Truth
+		if un, ok := v.(*ssa.UnOp); ok && un.Op == token.NOT {
+			v, truth = un.X, !truth
+		}
+		if call, ok := v.(*ssa.Call); ok && !truth && calleeLabel(call) == "channelsClosed.Load" && set != nil && dominatesInstr(set, call) {
+			rechecked = true
+		}
+		// `added` result of a helper
+		if !truth || depth >= 2 {
+			continue
+		}
+		var hc *ssa.Call
+		idx := 0
+		switch x := v.(type) {
+		case *ssa.Call:
+			hc = x
+		case *ssa.Extract:
+			if c2, ok := x.Tuple.(*ssa.Call); ok {
+				hc, idx = c2, x.Index
+			}
+		}
+		if hc == nil {
+			continue
+		}
+		h := hc.Call.StaticCallee()
+		if h == nil || h.Blocks == nil || h.Pkg != fn.Pkg {
+			continue
+		}
+		allIns, allRe, any := true, true, false
+		for _, ret := range returnsOf(h) {
+			if idx >= len(ret.Results) {
+				allIns, allRe = false, false
+				continue
+			}
+			if k, ok := unspill(ret.Results[idx]).(*ssa.Const); ok && k.Value != nil && k.Value.String() == "false" {
+				continue
+			}
+			any = true
+			i2, r2 := insertedAndRechecked(ret.Block(), depth+1)
+			allIns = allIns && i2
+			allRe = allRe && r2
+		}
+		if any {
+			inserted = inserted || allIns
+			rechecked = rechecked || (allIns && allRe)
+		}
+	}
+	return
 }
